@@ -404,7 +404,7 @@ def params(m: Mod, mode: str, first: str | None = None, tv: list[str] | None = N
     """Parameter list text. mode: 'ann' | 'unann' | 'mixed'. Returns (text, names)."""
     r = m.rng
     names = ["a", "b", "c", "d", "e", "f", "g", "h", "key", "value", "name", "default", "timeout", "flag", "items",
-             "type", "id", "input", "format", "cb", "path", "mode", "n", "x", "y"]
+             "kind", "id", "input", "format", "cb", "path", "mode", "n", "x", "y"]
     r.shuffle(names)
     n_posonly = r.choice([0, 0, 0, 1, 2]) if not simple else 0
     n_pos = r.randint(0, 3)
@@ -580,7 +580,7 @@ def f_generic(m: Mod) -> None:
     c = r.random()
     n = m.fresh("pick")
     if c < 0.5:
-        private = r.random() < 0.5
+        private = r.random() < 0.2
         T = m.fresh("T", private)
         extra = r.choice(["", ", bound=str", ", int, str", ", covariant=False"])
         m.add(f"{T} = {m.ty('TypeVar')}('{T}'{extra})")
@@ -627,7 +627,7 @@ def c_plain(m: Mod) -> None:
         bases.append(r.choice(["dict[str, int]", "list[int]", f"{m.ty('Dict')}[str, int]", f"{m.ty('List')}[str]"]))
         kind = "builtin-subclass"
     elif c < 0.55:
-        T = m.fresh("T", private=r.random() < 0.4)
+        T = m.fresh("T", private=r.random() < 0.15)
         m.add(f"{T} = {m.ty('TypeVar')}('{T}')")
         m.define(T, "typevar")
         bases.append(f"{m.ty('Generic')}[{T}]")
@@ -690,6 +690,7 @@ def c_plain(m: Mod) -> None:
     # methods
     nm = r.randint(1, 4)
     props: list[str] = []
+    dunders_done: set[str] = set()
     for _ in range(nm):
         cc = r.random()
         if cc < 0.35:
@@ -719,6 +720,9 @@ def c_plain(m: Mod) -> None:
                           "__bool__", "__contains__", "__lt__", "__add__"])
             if kind in ("builtin-subclass",):
                 d = "__repr__"
+            if d in dunders_done or (d == "__eq__" and "__hash__" in dunders_done) or (d == "__hash__" and "__eq__" in dunders_done):
+                continue
+            dunders_done.add(d)
             annotated = r.random() < 0.5
             if d == "__len__":
                 m.add("    def __len__(self)" + (" -> int" if annotated else "") + ":", "        return 0")
@@ -1107,10 +1111,10 @@ def v_vars(m: Mod) -> None:
             n = m.fresh("setting", private)
             t = rand_type(m, 0)
             dv = value(m, t)
-            if dv is not None and r.random() < 0.7:
-                m.add(f"{n}: {spell(m, t)} = {dv}")
-            elif m.is_init or True:
-                m.add(f"{n}: {spell(m, t)}")
+            if dv is None:
+                t = ("opt", t, r.choice(["Optional", "bar"]))
+                dv = "None"
+            m.add(f"{n}: {spell(m, t)} = {dv}")
             m.define(n, "annotated-variable")
         elif c < 0.7:
             n = m.fresh("MAX", private)
@@ -1282,7 +1286,7 @@ FEATURES: list[tuple[str, Any, float]] = [
     ("decorated", f_decorated, 0.7), ("generic-func", f_generic, 0.9), ("class", c_plain, 2.5), ("abc", c_abc, 0.7),
     ("protocol", c_protocol, 0.5), ("dataclass", c_dataclass, 1.2), ("enum", c_enum, 1.0), ("namedtuple", c_namedtuple, 1.0),
     ("typeddict", c_typeddict, 0.9), ("pep695", c_pep695, 0.8), ("vars", v_vars, 1.5), ("alias", v_alias, 1.0),
-    ("conditional", v_conditional, 0.6), ("private-in-public", v_private_in_public, 0.5),
+    ("conditional", v_conditional, 0.6), ("private-in-public", v_private_in_public, 0.3),
     ("default-only-refs", v_default_only_refs, 0.6), ("tc-import", v_tc_import, 0.3),
 ]
 
@@ -1306,9 +1310,10 @@ def finish_all(m: Mod) -> list[str]:
     return ["__all__ = [", *[f"    {n!r}," for n in names], "]"]
 
 
-def gen_module(rng: random.Random, name: str, n_defs: tuple[int, int] = (8, 16), package: str | None = None,
-               siblings: list[tuple[str, "Mod"]] | None = None, rel_prefix: str = ".") -> Mod:
+def gen_module(rng: random.Random, name: str, n_defs: tuple[int, int] = (8, 13), package: str | None = None,
+               siblings: list[tuple[str, "Mod"]] | None = None, rel_prefix: str = ".", counter0: int = 0) -> Mod:
     m = Mod(rng, name, package)
+    m.counter = counter0
     if rng.random() < 0.5:
         m.body.append(f'"""Module {name}."""')
     # imports from sibling modules of the package: classes usable in annotations and as bases
@@ -1360,13 +1365,13 @@ def gen_bundle(rng: random.Random, tag: str, n_standalone: int = 4, with_package
     if with_package:
         pkg = f"{tag}_pkg"
         core = gen_module(rng, "core", (6, 10), package=pkg)
-        util = gen_module(rng, "util", (5, 9), package=pkg, siblings=[("core", core)])
+        util = gen_module(rng, "util", (5, 9), package=pkg, siblings=[("core", core)], counter0=100)
         files[f"{pkg}/core.py"] = render(core)
         util_src = render(util)
         if rng.random() < 0.5:
             util_src = util_src.replace("\n", "\nfrom . import core as _core_mod\n", 1) if rng.random() < 0.5 else util_src + "from . import core\n"
         files[f"{pkg}/util.py"] = util_src
-        leaf = gen_module(rng, "leaf", (4, 8), package=pkg + ".sub", siblings=[("core", core), ("util", util)], rel_prefix="..")
+        leaf = gen_module(rng, "leaf", (4, 8), package=pkg + ".sub", siblings=[("core", core), ("util", util)], rel_prefix="..", counter0=200)
         files[f"{pkg}/sub/__init__.py"] = rng.choice(["", "from .leaf import *\n", "from . import leaf\n", '"""Sub package."""\n'])
         files[f"{pkg}/sub/leaf.py"] = render(leaf)
         # package __init__: re-exports in several forms
